@@ -230,9 +230,9 @@ def replay(pid, payload, seed):
     if payload.get("engine") == "orderstress":
         out = eng_orderstress(Ctx(pid, "quick", seed, {"evaluations": 0, "distinct": set(), "samples": [], "streams": {}, "traces": 0}))
         return out[0] if out else None
-    if payload.get("engine") in ("topicstress", "deletestress", "pushstress", "nsstress"):
+    if payload.get("engine") in ("topicstress", "deletestress", "pushstress", "nsstress", "datastress", "grpcstress"):
         fn = {"topicstress": eng_topicstress, "deletestress": eng_deletestress, "pushstress": eng_pushstress,
-              "nsstress": eng_nsstress}[payload["engine"]]
+              "nsstress": eng_nsstress, "datastress": eng_datastress, "grpcstress": eng_grpcstress}[payload["engine"]]
         out = fn(Ctx(pid, "quick", seed, {"evaluations": 0, "distinct": set(), "samples": [], "streams": {}, "traces": 0}))
         return out[0] if out else None
     if payload.get("engine") == "racestress":
@@ -711,6 +711,74 @@ def eng_nsstress(ctx):
     return []
 
 
+def _stress(ctx, name, args, pattern, fields, judge, replay_name=None):
+    """Runs one stress subcommand of the harness, records its counters, and turns what `judge` finds into a violation."""
+    p = sh([HARNESS, name] + [str(a) for a in args], check=False, timeout=3000)
+    out = p.stdout or ""
+    m = re.search(pattern, out)
+    st = ctx.stats
+    if not m:
+        return [("engine", "%s did not finish" % name, {"output": out[-2000:], "signature": "engine:" + name})]
+    vals = dict(zip(fields, (int(x) for x in m.groups())))
+    st["evaluations"] += vals.get(fields[0], 0)
+    st["streams"][name] = dict(vals, cases=vals.get(fields[0], 0))
+    st["distinct"].add(name)
+    why = judge(vals, out)
+    if why:
+        return [("violation", "%s: %s" % (name, why),
+                 {"engine": name, "failing_input_found": True, "monitor": why, "signature": "monitor:" + why.split(":")[0],
+                  "replay_cmd": ".cache/target/release/harness %s %s" % (name, " ".join(str(a) for a in args)),
+                  "output": out[-3000:], "broken": "stress search on the implementation (multi-thread runtime)"})]
+    return []
+
+
+def eng_datastress(ctx):
+    """Multi-thread runtime, shorter than an ack deadline: publishers, and consumers that ack / nack / extend, on two
+    subscriptions, time-stamped with one logical clock.  A stress search: it can only find."""
+    def judge(v, out):
+        if "inconclusive" in out:
+            return None
+        first = next((l for l in out.splitlines() if l.startswith("subscription ")), "")
+        if v["lost"]:
+            return "C01-lost: %d published message(s) were never delivered on a subscription attached throughout [%s]" % (v["lost"], first[:200])
+        if v["double_lease"]:
+            return ("C03-double-lease: %d message(s) were handed out again although their previous delivery had not been "
+                    "nacked and its lease was running [%s]" % (v["double_lease"], first[:200]))
+        if v["after_ack"]:
+            return "C02-redelivered-after-ack: %d deliveries started after an acknowledgement of the message had returned [%s]" % (v["after_ack"], first[:200])
+        if v["dup_ack_ids"]:
+            return "C03-ack-id-reused: %d ack ids were handed out twice" % v["dup_ack_ids"]
+        if v["wrong_payload"]:
+            return "C09-payload: %d message(s) were delivered with a payload other than the one published under their id" % v["wrong_payload"]
+        return None
+    return _stress(ctx, "datastress", [ctx.n(1500, 6000), 8],
+                   r"DATASTRESS published=(\d+) deliveries=(\d+) lost=(\d+) dup_ack_ids=(\d+) double_lease=(\d+) after_ack=(\d+) wrong_payload=(\d+)",
+                   ["published", "deliveries", "lost", "dup_ack_ids", "double_lease", "after_ack", "wrong_payload"], judge)
+
+
+def eng_grpcstress(ctx):
+    """Multi-thread runtime, the real gRPC handlers: consumers on a subscription that two DeleteSubscription calls
+    delete at the same time, with Get / Acknowledge racing them.  A stress search: it can only find."""
+    def judge(v, out):
+        first = next((l for l in out.splitlines() if l.startswith("round ")), "")
+        if v["hung"]:
+            return "C07-pending: %d call(s) had no answer after 5 s [%s]" % (v["hung"], first[:200])
+        if v["stream_not_ended"] or v["pull_not_released"]:
+            return ("C12-not-released: %d stream(s) still open and %d blocked Pull(s) still waiting 5 s after their "
+                    "subscription was deleted [%s]" % (v["stream_not_ended"], v["pull_not_released"], first[:200]))
+        if v["stream_wrong_status"]:
+            return "C12-stream-status: %d stream(s) ended with a status other than NOT_FOUND after the deletion [%s]" % (v["stream_wrong_status"], first[:200])
+        if v["delete_answers_bad"]:
+            return ("C10-delete-not-atomic: in %d round(s) the two racing DeleteSubscription calls did not answer one OK and "
+                    "one NOT_FOUND [%s]" % (v["delete_answers_bad"], first[:200]))
+        if v["still_there"]:
+            return "C10-delete-not-observed: in %d round(s) GetSubscription still found the subscription after both deletions had returned" % v["still_there"]
+        return None
+    return _stress(ctx, "grpcstress", [ctx.n(1500, 20000), 8],
+                   r"GRPCSTRESS rounds=(\d+) hung=(\d+) stream_not_ended=(\d+) stream_wrong_status=(\d+) pull_not_released=(\d+) delete_answers_bad=(\d+) still_there=(\d+)",
+                   ["rounds", "hung", "stream_not_ended", "stream_wrong_status", "pull_not_released", "delete_answers_bad", "still_there"], judge)
+
+
 def eng_deletestress(ctx):
     """Closed-loop publishers on one topic and a DeleteSubscription in their midst (current-thread runtime): the number
     of Publish calls that complete before the deletion returns is bounded by what was queued ahead of it."""
@@ -784,7 +852,7 @@ def eng_subset_lists(mon, kinds):
 
 reg("C02", [eng_id_lists(M.mon_ack_final, ("ack", "sack", "sackmod")), eng_subset_lists(M.mon_ack_final, ("ack", "sack")), eng_data_enum(M.mon_ack_final, {"ACK"}),
             eng_data_random(M.mon_ack_final, {"ACK"}, streams=True, tag="data-stream-random"),
-            eng_stream_enum(M.mon_ack_final), eng_big_ack],
+            eng_stream_enum(M.mon_ack_final), eng_big_ack, lambda ctx: eng_datastress(ctx)],
     rule="id-lists: Acknowledge (unary and streaming) with every id list of length 1..3 over {stale, live, live, unknown, "
          "oddly spelled live}, then expiry and drain; data-enum: every sequence over {pub, pub2, pull1, pullN, ack-last, ack-first, ack-unknown, nack, modify, +5.1s, +10.1s} "
          "up to the depth noted, STATS after every step, final drain; data-stream-random: random scripts with unary and "
@@ -803,7 +871,7 @@ reg("C03", [eng_data_random(M.mon_exclusive, {"PULL"}, tag="data-random"),
             eng_data_random(M.mon_exclusive, {"SR", "PULL"}, streams=True, tag="data-stream-random"),
             eng_data_enum(M.mon_exclusive, {"PULL"}),
             eng_deadline_probes((None,), M.mon_exclusive, "lease-probes"), eng_modify_batches,
-            lambda ctx: eng_abandon(ctx)],
+            lambda ctx: eng_abandon(ctx), lambda ctx: eng_datastress(ctx)],
     rule="random scripts with pulls of several sizes, nacks, expiry and streams on one subscription; exhaustive short "
          "sequences; lease-probes: two leases handed out 40/70 ms apart at every phase of the 100 ms deadline grid, a "
          "third consumer pulling 1 ms before, at and 1 ms after each deadline. non-trivial = contains a Pull/stream response with at least one message",
@@ -871,7 +939,7 @@ def eng_racing_namespace(ctx):
 
 
 reg("C10", [lambda ctx: eng_control_enum(ctx), eng_control_random(M.mon_namespace, {"CT", "CS"}, always=True), eng_names_echo,
-            eng_racing_namespace, lambda ctx: eng_nsstress(ctx)],
+            eng_racing_namespace, lambda ctx: eng_nsstress(ctx), lambda ctx: eng_grpcstress(ctx)],
     rule="random control-plane scripts over 2 projects x 3 topics x 4 subscriptions with deletions, re-creations, "
          "cross-project and malformed names, interleaved with data-plane calls; racing-namespace: two or three clients "
          "that each do create-then-get or delete-then-get on ONE name, started without letting the runtime settle "
@@ -973,7 +1041,7 @@ def eng_capacity_drain(ctx):
 reg("C01", [lambda ctx: eng_control_enum(ctx),
             eng_data_random(mon_c01, {"PUB"}, streams=True, tag="data-stream-drain", drain=True, always=True),
             eng_control_random(mon_c01, {"PUB"}, drain=True, always=True), eng_data_enum(M.mon_payload, {"PUB"}),
-            eng_capacity_drain, eng_expiry_load, lambda ctx: eng_abandon(ctx)],
+            eng_capacity_drain, eng_expiry_load, lambda ctx: eng_abandon(ctx), lambda ctx: eng_datastress(ctx)],
     rule="random scripts with several subscriptions per topic, streams, nack/expiry cycles, deletions and re-creations of "
          "topic and subscription names, each followed by a drain (every lease left to run out, every stream read, every "
          "subscription pulled until an empty answer): mon_fanout reads off the implementation's answers that nothing "
@@ -1347,7 +1415,7 @@ reg("C06", [eng_wait_enum, eng_wait_random(M.mon_wait, {"SR", "JOIN"}), eng_canc
                "the sequential one.")
 
 reg("C12", [eng_delete_release, eng_wait_random(M.mon_release, {"DS"}), eng_burst_shapes, eng_cs,
-            lambda ctx: eng_abandon(ctx)],
+            lambda ctx: eng_abandon(ctx), lambda ctx: eng_grpcstress(ctx)],
     rule="delete-release: per runtime seed, DeleteSubscription with two streams (request side open / closed), a blocked "
          "Pull, consumers of another subscription, and (variants) ack/nack/pull/get/publish calls started without "
          "letting the runtime settle, then every consumer observed; wait-random as for C06. non-trivial = a "
@@ -1484,7 +1552,7 @@ reg("C16", [eng_abandon, eng_burst, lambda ctx: eng_create_delete_race(ctx), lam
                "(deltio_suspension_points_as_modelled), not proved semantically.",
     generated=[("lock-discipline", lockgate.lock_gate)])
 
-reg("C07", [eng_burst, eng_abandon, eng_pull_limit, eng_pushstress, eng_deletestress, eng_nsstress],
+reg("C07", [eng_burst, eng_abandon, eng_pull_limit, eng_pushstress, eng_deletestress, eng_nsstress, eng_grpcstress],
     rule="burst: 17-70 calls (Get/Pull/Ack/List, one or two DeleteSubscription, one or two Publish, sometimes DeleteTopic) "
          "started without letting the runtime settle, seeded select!/scheduling order; after settling every call must "
          "have an answer and the server must still answer Get/Publish/Pull/List (mon_no_hang on every case; the harness "
